@@ -110,6 +110,27 @@ func c22Status(resp *serf.KeyResponse, err error) (string, bool) {
 	return "err-nomsg", true
 }
 
+// c22NewNode starts a real node on the keyring x.kr (other harnesses run in parallel on the same
+// loopback range: an address may be taken, then another one is tried).
+func c22NewNode(x *c22Node, hasFile bool) (*testNode, error) {
+	var n *testNode
+	var err error
+	for try := 0; try < 20; try++ {
+		n, err = newTestNode(func(c *serf.Config) {
+			c.MemberlistConfig.Keyring = x.kr
+			if hasFile {
+				c.KeyringFile = x.path
+			}
+			c.QueryTimeoutMult = 4000 // 20 s; KeyManager returns as soon as the node has answered
+		})
+		if err == nil {
+			return n, nil
+		}
+		time.Sleep(50 * time.Millisecond)
+	}
+	return nil, err
+}
+
 func c22Exec(ops []string) []string {
 	dir, err := os.MkdirTemp("", "verif-c22-")
 	if err != nil {
@@ -145,7 +166,8 @@ func c22Exec(ops []string) []string {
 				}
 				kr, st := c22Load(x.path)
 				if kr == nil {
-					outs = append(outs, "init-failed:"+st)
+					_ = st
+					outs = append(outs, "init-failed")
 					continue
 				}
 				x.kr = kr
@@ -153,24 +175,29 @@ func c22Exec(ops []string) []string {
 					os.Remove(x.path)
 				}
 			}
-			var n *testNode
-			var err error
-			// other harnesses run in parallel on the same loopback range: an address may be taken
-			for try := 0; try < 20; try++ {
-				n, err = newTestNode(func(c *serf.Config) {
-					c.MemberlistConfig.Keyring = x.kr
-					if hasFile {
-						c.KeyringFile = x.path
-					}
-					c.QueryTimeoutMult = 4000 // 20 s; KeyManager returns as soon as the node has answered
-				})
-				if err == nil {
-					break
-				}
-				time.Sleep(50 * time.Millisecond)
-			}
+			n, err := c22NewNode(x, hasFile)
 			if err != nil {
 				outs = append(outs, "init-failed:"+hexs(err.Error()))
+				continue
+			}
+			x.n = n
+			outs = append(outs, x.observe("ok"))
+		case len(f) == 1 && f[0] == "restart":
+			if x.n == nil || x.n.Conf.KeyringFile == "" {
+				outs = append(outs, "bad-op")
+				continue
+			}
+			x.n.Close()
+			x.n = nil
+			kr, st := c22Load(x.path)
+			if kr == nil {
+				outs = append(outs, "restart-failed:"+st)
+				continue
+			}
+			x.kr = kr
+			n, err := c22NewNode(x, true)
+			if err != nil {
+				outs = append(outs, "restart-failed:"+hexs(err.Error()))
 				continue
 			}
 			x.n = n
@@ -254,8 +281,13 @@ func c22Gen(rng *rand.Rand, tier string) []Case {
 		"init " + k(0) + "," + k(1) + " 1",
 		"install " + hexb(invalid[1]), "use " + k(2), "remove " + k(0), "remove " + k(3),
 		"install " + k(2), "install " + k(2), "use " + k(2), "remove " + k(0), "use " + k(1), "raw use -", "raw install 07c1",
-		"install " + k(3), "remove " + k(1), "remove " + k(1),
+		"install " + k(3), "remove " + k(1), "remove " + k(1), "restart", "use " + k(3), "restart", "remove " + k(3),
 	}})
+	// hand-edited files: a repeated entry loads; an entry of a wrong length or an empty list is refused as a whole
+	out = append(out, Case{ID: "fixed-dupfile", Tags: []string{"fixed", "file-with-duplicate"}, Ops: []string{
+		"init " + k(0) + "," + k(2) + "," + k(0) + " 1", "use " + k(2), "restart", "remove " + k(0), "restart"}})
+	out = append(out, Case{ID: "fixed-badfile", Tags: []string{"fixed", "file-with-invalid-entry"}, Ops: []string{
+		"init " + k(0) + "," + hexb(invalid[3]) + "," + k(1) + " 1", "install " + k(2)}})
 	out = append(out, Case{ID: "fixed-nofile", Tags: []string{"fixed", "no-file"}, Ops: []string{
 		"init " + k(0) + " 0", "install " + k(1), "use " + k(1), "remove " + k(0), "remove " + k(1),
 	}})
@@ -276,8 +308,33 @@ func c22Gen(rng *rand.Rand, tier string) []Case {
 			hasFile = "0"
 			tags["no-file"] = true
 		}
-		ops := []string{"init " + c22ShowKeys(ring) + " " + hasFile}
+		initKeys := append([][]byte{}, ring...)
+		if rng.Intn(8) == 0 {
+			// a hand-edited file with a repeated entry: the loader drops the repetition, the file still loads to the ring
+			initKeys = append(initKeys, ring[rng.Intn(len(ring))])
+			tags["file-with-duplicate"] = true
+		}
+		if rng.Intn(20) == 0 {
+			// a file with an entry that is no AES key: the loader must refuse the whole file
+			bad := invalid[1+rng.Intn(len(invalid)-1)]
+			pos := rng.Intn(len(initKeys) + 1)
+			initKeys = append(append(append([][]byte{}, initKeys[:pos]...), bad), initKeys[pos:]...)
+			out = append(out, Case{ID: fmt.Sprintf("r%d", i), Ops: []string{"init " + c22ShowKeys(initKeys) + " 1", "install " + hexb(valid[0]), "restart"},
+				Tags: []string{"file-with-invalid-entry"}})
+			continue
+		}
+		if rng.Intn(25) == 0 {
+			out = append(out, Case{ID: fmt.Sprintf("r%d", i), Tags: []string{"no-encryption"}, Ops: []string{"init _ 0",
+				"install " + hexb(valid[rng.Intn(len(valid))]), "use " + hexb(valid[rng.Intn(len(valid))]),
+				"remove " + hexb(valid[rng.Intn(len(valid))]), "install " + hexb(invalid[rng.Intn(len(invalid))]), "raw use 07"}})
+			continue
+		}
+		ops := []string{"init " + c22ShowKeys(initKeys) + " " + hasFile}
 		cnt := 6 + rng.Intn(14)
+		if tier == "thorough" && rng.Intn(10) == 0 {
+			cnt = 60 + rng.Intn(40)
+			tags["long-history"] = true
+		}
 		rej, acc := 0, 0
 		cur := append([][]byte{}, ring...)
 		has := func(k []byte) int {
@@ -289,6 +346,11 @@ func c22Gen(rng *rand.Rand, tier string) []Case {
 			return -1
 		}
 		for j := 0; j < cnt; j++ {
+			if hasFile == "1" && rng.Intn(12) == 0 {
+				ops = append(ops, "restart")
+				tags["restart"] = true
+				continue
+			}
 			var key []byte
 			switch rng.Intn(10) {
 			case 0, 1:
@@ -348,7 +410,7 @@ func c22Gen(rng *rand.Rand, tier string) []Case {
 			}
 		}
 		var tl []string
-		for _, t := range []string{"no-file", "badlen", "install-existing", "use-absent", "remove-primary", "remove-absent", "raw"} {
+		for _, t := range []string{"no-file", "badlen", "install-existing", "use-absent", "remove-primary", "remove-absent", "raw", "restart", "file-with-duplicate", "long-history"} {
 			if tags[t] {
 				tl = append(tl, t)
 			}
@@ -361,7 +423,7 @@ func c22Gen(rng *rand.Rand, tier string) []Case {
 func init() {
 	register(&Prop{
 		ID:   "C22",
-		Rule: "real serf node with keyring + keyring file; requests through KeyManager (internal queries handled by the node's own key handlers), malformed payloads through NotifyMsg; random sequences of install/use/remove over valid keys (16/24/32 bytes), wrong lengths (0,1,15,17,23,31,33,64), absent keys, the primary, duplicates; non-trivial = keyring file configured, at least 2 rejected and 3 accepted requests",
+		Rule: "real serf node with keyring + keyring file; requests through KeyManager (internal queries handled by the node's own key handlers), malformed payloads through NotifyMsg; random sequences of install/use/remove over valid keys (16/24/32 bytes), wrong lengths (0,1,15,17,23,31,33,64), absent keys, the primary, duplicates, restarts through the agent's loader in the middle of a history, initial files with repeated or invalid entries; non-trivial = keyring file configured, at least 2 rejected and 3 accepted requests",
 		Gen:  c22Gen,
 		Exec: c22Exec,
 	})
